@@ -114,7 +114,7 @@ def main(tier):
     from .. import docspec
 
     structure = {r for r, d in docspec.spec().items() if d["group"] == "structure"}
-    its = common.pipe_items(tier, KQ, KT, k1=True, k1_rules=structure) + common.k2_items(tier, indent=(tier != "quick"))
+    its = common.pipe_items(tier, KQ, KT, k1=True, k1_rules=structure) + common.k2_items(tier, indent=True, case=True)
     m = explore.run(its, execute, horizon=120.0, label=PROP)
     return report.finish(
         PROP, tier, "model_checking", [m], t0,
